@@ -587,4 +587,11 @@ Definition to_millis (s : string) (picture tz : option string) : lres Z :=
                  else [opt_string picture] in
   to_millis_loop s layouts.
 
+(* jsonata.go: newEnv calls timeCallables(time.Now()) ONCE per evaluation and binds $millis and
+   $now to partial applications of the same number ms = t.UnixNano()/1e6 (as a float64
+   NumberNode; exact below 2^53).  With [clock_ms] that per-evaluation constant: *)
+Definition eval_millis (clock_ms : Z) : Z := clock_ms.
+Definition eval_now (clock_ms : Z) (picture tz : option string) : lres string :=
+  from_millis clock_ms picture tz.
+
 End WithFormatInteger.
